@@ -77,6 +77,36 @@ pub fn corr(seed: u64, n: u64) {
             }
         }
     }
+    // 2-D paths (own stream): the per-curve boxes of the real curves go into the transcript, the model folds them with the generated 2-D union
+    // (a box is empty only when its corners are the same point: vertical / horizontal lines take part, point sections do not)
+    let mut rng2 = Rng(seed ^ 0x2D0C06);
+    for _ in 0..n / 10 {
+        let k = rng2.i(6) as usize;
+        let val = |rng: &mut Rng| if rng.i(5) == 0 { 5.0 } else { rng.r(0.0, 100.0) };
+        let start = Coord2(val(&mut rng2), val(&mut rng2));
+        let mut pts: Vec<(Coord2, Coord2, Coord2)> = vec![];
+        let mut prev = start;
+        for _ in 0..k {
+            let c = match rng2.i(6) {
+                0 => (prev, prev, prev),
+                1 => { let e = Coord2(prev.0, val(&mut rng2)); (prev + (e - prev) * 0.33, prev + (e - prev) * 0.66, e) }
+                2 => { let e = Coord2(val(&mut rng2), prev.1); (prev + (e - prev) * 0.33, prev + (e - prev) * 0.66, e) }
+                _ => (Coord2(val(&mut rng2), val(&mut rng2)), Coord2(val(&mut rng2), val(&mut rng2)), Coord2(val(&mut rng2), val(&mut rng2))),
+            };
+            prev = c.2; pts.push(c);
+        }
+        let path: SimpleBezierPath = (start, pts);
+        let curves: Vec<Curve<Coord2>> = path.to_curves();
+        let pb: Bounds<Coord2> = path.bounding_box();
+        let pf: Bounds<Coord2> = path.fast_bounding_box();
+        let mut line = format!("C06 pbox2 R #{}", curves.len());
+        for c in &curves { let b: Bounds<Coord2> = c.bounding_box(); line += &format!(" {} {} {} {}", hx(b.min().0), hx(b.min().1), hx(b.max().0), hx(b.max().1)); }
+        for c in &curves { let b: Bounds<Coord2> = c.fast_bounding_box(); line += &format!(" {} {} {} {}", hx(b.min().0), hx(b.min().1), hx(b.max().0), hx(b.max().1)); }
+        line += &format!(" | {} {} {} {} {} {} {} {}", hx(pb.min().0), hx(pb.min().1), hx(pb.max().0), hx(pb.max().1), hx(pf.min().0), hx(pf.min().1), hx(pf.max().0), hx(pf.max().1));
+        stats.case(&line, curves.len() > 1);
+        stats.count(&format!("pbox2.curves_{}", curves.len()));
+        println!("{}", line);
+    }
     stats.print("C06", "corr");
 }
 
